@@ -74,7 +74,7 @@ func (c *Converter) ExpandUpdate(ctx context.Context, upd *sdcpb.Update, include
 		case *sdcpb.TypedValue_JsonVal:
 			jsonDecoder = json.NewDecoder(bytes.NewReader(upd.GetValue().GetJsonVal()))
 		default:
-			return []*sdcpb.Update{upd}, nil
+			return append(upds, upd), nil
 		}
 		// don't decode into float64 but keep as a string
 		// this solves issues created by reading long integers
